@@ -1,5 +1,6 @@
 import Rivaas.Proto
 import Rivaas.Model.Pool
+import Rivaas.Model.Radix
 /-
 Driver for C03. One case = one history of requests on the process-wide context pool.
 
@@ -10,6 +11,8 @@ Driver for C03. One case = one history of requests on the process-wide context p
   dirty   = <k> (E n | A | M str str | S idx str str | C int | X str | N int)^k      what the handlers did afterwards
   accRef  = str    results of the four Accept* helpers on a brand-new context for this request (parameter)
   names   = <m> str^m    parameter names the probe asks for
+  routes  = <k> (method version pattern intParam)^k   the registered routes; lookups = <j> (reqIndex method version path)^j:
+            requests whose parameters come from a radix-tree lookup — recomputed with Model/Radix.getRoute
   view    = <paramCount int> <all: m (k v)^m sorted> <map: m (k v)^m sorted> <version> <pattern> <aborted> <nerrors>
             <acc str> <presence nat> <params: m (name value)^m> <retained: nat bitmask of non-clean fields after release> <stable 0|1> <shared 0|1>
   <id> N <goroutines> <iterations> => <requests served> <answers that differ from the sequential reference>
@@ -145,6 +148,46 @@ def runModel (reqs : List Req) : List View × List View :=
       go ((r.obj, after) :: pool.filter (·.1 != r.obj)) rest (view s :: seen) (view (prepare r.steps brandNew) :: fresh)
   go [] reqs [] []
 
+/-! ### the parameter writes of radix-tree lookups, recomputed with the routing model (Model/Radix) -/
+
+structure RouteReg where
+  method : Bytes
+  ver : Bytes
+  pattern : Bytes
+  intParam : Bytes     -- name of a parameter constrained to digits ([] = none)
+
+structure Lookup where
+  out : Nat            -- index of the request in the case
+  method : Bytes
+  ver : Bytes          -- [] = main tree, else the version tree
+  path : Bytes
+
+def isDigits (v : Bytes) : Bool := v != [] && v.all fun c => '0' ≤ c && c ≤ '9'
+
+/-- the method tree the router builds from the registrations, in registration order -/
+def treeFor (routes : List RouteReg) (method ver : Bytes) : Rivaas.Radix.Tree :=
+  let rec go (t : Rivaas.Radix.Tree) (i : Nat) : List RouteReg → Rivaas.Radix.Tree
+    | [] => t
+    | r :: rest =>
+      if r.method == method && r.ver == ver then
+        go (Rivaas.Radix.addRoute t r.pattern i (if r.intParam == [] then [] else [(r.intParam, 1)])) (i + 1) rest
+      else go t (i + 1) rest
+  go Rivaas.Radix.Tree.empty 0 routes
+
+/-- the `writeParam` steps of a preparation -/
+def writesOf (steps : List Step) : List KV :=
+  steps.filterMap fun s => match s with | .writeParam k v => some (k, v) | _ => none
+
+/-- the routing model's answer for the lookup equals the predicted parameter writes: the first eight in the slots, in
+    order, the rest in the map -/
+def lookupAgrees (routes : List RouteReg) (reqs : List Req) (lk : Lookup) : Bool :=
+  match reqs[lk.out]? with
+  | none => false
+  | some r =>
+    let (leaf, ctx) := Rivaas.Radix.getRoute (fun _ v => isDigits v) (treeFor routes lk.method lk.ver) lk.path Rivaas.Radix.Ctx.fresh
+    let ws := writesOf r.steps
+    leaf.isSome && ctx.slots == ws.take 8 && sortedMap ctx.over == sortedMap (ws.drop 8)
+
 /-- fields that may be non-zero on a released object: router (3), index (4), paramKeys (6), paramValues (7) -/
 def retainedAllowed : Nat := 2^3 + 2^4 + 2^6 + 2^7
 
@@ -163,8 +206,14 @@ def step (line : String) : String :=
       | some (served, bad) => verdict id (bad == 0 && served > 0) (bad == 0 && served > 0) "-" s!"{served} 0"
       | none => s!"{id} bad-case"
     | "H" :: rest =>
-      match runP (do let rs ← list pReq; let ns ← list str; pure (rs, ns)) rest, runP (list pProbe) obs with
-      | some (reqs, names), some probes =>
+      match runP (do
+          let rs ← list pReq; let ns ← list str
+          let routes ← list (do let m ← str; let v ← str; let p ← str; let ip ← str; pure (⟨m, v, p, ip⟩ : RouteReg))
+          let lks ← list (do let o ← nat; let m ← str; let v ← str; let p ← str; pure (⟨o, m, v, p⟩ : Lookup))
+          pure (rs, ns, routes, lks)) rest, runP (list pProbe) obs with
+      | some (reqs, names, routes, lks), some probes =>
+        -- the predicted parameter writes are what the routing model computes for the registered routes
+        let routed := lks.all (lookupAgrees routes reqs)
         let (seen, fresh) := runModel reqs
         let mk := fun (vs : List View) => (vs.zip reqs).map fun (v, r) => render v names r.accRef r.hdr
         let mSeen := mk seen
@@ -172,7 +221,7 @@ def step (line : String) : String :=
         let impl := probes.map (·.1)
         -- the model: two requests in flight never share a context, so nothing changes under a running handler
         let exclusive := probes.all (fun p => p.2.2.1 && !p.2.2.2)
-        let mi := mSeen == impl && exclusive
+        let mi := mSeen == impl && exclusive && routed
         -- oracle: the implementation's view is the brand-new view, it stays the request's own while another request
         -- is served, no two in-flight requests hold the same context, and the released object is clean
         let s := mFresh == impl && exclusive &&
